@@ -2,6 +2,8 @@ import RockitModel.Proofs.Bridge
 import RockitModel.Model.ToFunction
 import Mathlib.Tactic.Basic
 import Mathlib.Logic.Basic
+import RockitModel.Proofs.Glue
+import RockitModel.Generated.Glue
 /-!
 # C19 — `to_function` reproduces the `set_value` / `set_initial` / `solve` / `sample` pipeline (partial)
 
@@ -106,4 +108,18 @@ theorem control_start_same (calls : List (Nat × Guess K)) (i : Nat) (cols : Lis
   simp [Ctx.guessVal, tfControlStart, hN, hk]
 
 end states
+
+/-! ### a concatenation of parameters as ONE argument / ONE set_value call -/
+section concatenations
+
+/-- the imperative side of `f(values)` with the argument `ocp.p`: `set_value(ocp.p, values)` gives every parameter, of whatever shape,
+its own entries (`for_all_primitives`, read off the source on every run) -/
+theorem set_value_on_concatenation {α : Type} (parts : List (List α)) :
+    splitBy (parts.map List.length) parts.flatten = parts ∧
+    Rockit.Generated.glueSizes.filter (fun r => r.1 == "for_all_primitives") =
+      [("for_all_primitives", "stride", "nnz"), ("for_all_primitives", "slice", "nnz")] :=
+  ⟨splitBy_flatten parts, by decide⟩
+
+end concatenations
+
 end Rockit.C19
